@@ -95,9 +95,16 @@ def args(bad_ok=True):
     def lst(ch):
         return st.builds(lambda t, k: {"k": "list", "t": t, "kids": k}, st.sampled_from(["list", "tuple", "taglist", "list", "tuple", "taglist", "tuplesub", "listsub"]), st.lists(ch, max_size=3))
 
+    def nest(x, levels, kinds):
+        for i in range(levels):
+            x = {"k": "list", "t": kinds[i % len(kinds)], "kids": [x] if i % 5 else [{"k": "none"}, x]}
+        return x
+
+    # containers nested far deeper than anyone writes by hand (17 .. 60 levels)
+    deep = st.builds(nest, sc, st.integers(12, 60), st.lists(st.sampled_from(["list", "tuple", "list", "tuplesub"]), min_size=1, max_size=3))
     n = st.one_of(sc, lst(sc))
     n = st.one_of(sc, sc, lst(n))
-    return st.one_of(sc, sc, lst(n))
+    return st.one_of(sc, sc, sc, sc, lst(n), lst(n), deep)
 
 
 def taglist_safe(r):
@@ -442,7 +449,7 @@ def body_is_child(case, note):
             walk(x)
 
     walk(rec)
-    note(True, *sorted(kinds), "accepted" if accepted else "rejected")
+    note(True, *sorted(kinds), "accepted" if accepted else "rejected", "nested>=17-levels" if depth(rec) >= 17 and accepted else "")
 
 
 RULE = (
@@ -464,5 +471,5 @@ CLAUSES = [
         required=("op:append", "op:extend", "op:insert", "op:add", "op:radd", "op:iadd", "op:iadd_str", "op:slice", "op:mul", "op:extend_str", "op:shared", "rejected:insert", "rejected:iadd", "on-tag", "on-list", "container-subclass"),
         rule="see RULE",
     ),
-    Clause("is-child", body_is_child, strategy=lambda: st.fixed_dictionaries({"arg": args().map(taglist_safe)}), quick=600, thorough=5000, shards_quick=1, shards_thorough=4, required=("kind:num:int", "kind:num:float", "rejected"), rule="every case"),
+    Clause("is-child", body_is_child, strategy=lambda: st.fixed_dictionaries({"arg": args().map(taglist_safe)}), quick=600, thorough=5000, shards_quick=1, shards_thorough=4, required=("kind:num:int", "kind:num:float", "rejected", "nested>=17-levels"), rule="every case"),
 ]
